@@ -442,3 +442,16 @@ Definition simple_b (g : graph) : bool :=
      forallb (fun p => p <? length (g_nodes g)) (n_parents n) &&
      Bool.eqb (dry (n_cfg n)) (n_dry n) && Bool.eqb (flat (n_cfg n)) (n_flat n) && Bool.eqb (cloned (n_cfg n)) (n_cloned n))
     (seq 0 (length (g_nodes g))).
+
+(* ---- the hypotheses of the C02 path theorem (Proofs/TraversePath.v), as a check on exported graphs: edges are
+        symmetric, the root has no parents, a node below the root has the root as its only parent, and no parent
+        other than the root carries the root's visit registers ---- *)
+Definition pwf_b (g : graph) : bool :=
+  match n_parents (nd g (g_root g)) with [] => true | _ => false end &&
+  forallb (fun i =>
+     let n := nd g i in
+     forallb (fun a => memn i (n_parents (nd g a))) (n_children n) &&
+     forallb (fun a => memn i (n_children (nd g a))) (n_parents n) &&
+     (negb (memn (g_root g) (n_parents n)) || match n_parents n with [p] => Nat.eqb p (g_root g) | _ => false end) &&
+     forallb (fun p => negb (n_reg (nd g p) =? n_reg (nd g (g_root g)))%N || Nat.eqb p (g_root g)) (n_parents n))
+    (seq 0 (length (g_nodes g))).
